@@ -7,6 +7,7 @@ R12.2 closing the chain (exact identity, sympy): with Rcrit = 2 f gamma / dG_v (
 R12.3 the binary lookup uses the same Gibbs-Thomson function for its interfacial-composition query (call-site agreement)
 R12.4 quantity kinds: an aspect ratio is passed to description-level shape functions, a radius to ShapeFactor-level ones
 R12.5 cached precipitate samples used by the sampling driving force are reused only at an equal temperature (C09 R9.4)
+R12.7 a nucleation barrier computed in a step is recorded for that step on every path (frozen table of exits that leave the record at zero)
 R12.6 interfacial compositions of an array of conditions: batched only for a uniform temperature, point results in input order (C09 R9.6)
 """
 from __future__ import annotations
@@ -212,12 +213,84 @@ def r124(repo, ctx):
     ctx.floor('R12.4', n, 3)
 
 
+# exits of the nucleation loop that may leave a computed barrier unrecorded (record stays at the zero written at the top of the
+# iteration) - confirmed by reading PrecipitateBase._calcNucleationRate; one line of reason each
+UNRECORDED_EXITS = {
+    'beta == 0': 'no atomic attachment is possible (a component with zero diffusivity / mobility): no nucleation, the whole record of the phase stays zero',
+}
+
+
+def r127(repo, ctx):
+    """the critical radius / barrier computed from the driving force of a step is the one recorded for that step: on every path
+    through the phase loop that computes the barrier, Y.Rcrit and Y.Gcrit are stored from it before the iteration ends, except
+    through the exits listed in UNRECORDED_EXITS"""
+    from .. import cfg as C
+    q = f'{K.PBASE}._calcNucleationRate'
+    f = repo.func(K.BASE, q)
+    loops = K.phase_loops(f)
+    if len(loops) != 1:
+        ctx.undecided('R12.7', K.BASE, q, f, 'phase loop not found')
+        return
+    loop = loops[0]
+    g = C.build(loop.body, region=True)
+
+    def norm(t):
+        # beta == 0 / 0 == beta / beta == 0.0 / not beta  ->  'beta == 0'
+        # (canonical text, polarity flipped)
+        if isinstance(t, ast.Compare) and len(t.ops) == 1 and isinstance(t.ops[0], (ast.Eq, ast.NotEq)):
+            for a_, b_ in ((t.left, t.comparators[0]), (t.comparators[0], t.left)):
+                if isinstance(a_, ast.Name) and isinstance(b_, ast.Constant) and isinstance(b_.value, (int, float)) and not isinstance(b_.value, bool) and b_.value == 0:
+                    return f'{a_.id} == 0', isinstance(t.ops[0], ast.NotEq)
+        if isinstance(t, ast.UnaryOp) and isinstance(t.op, ast.Not):
+            txt, fl = norm(t.operand)
+            return txt, not fl
+        if isinstance(t, ast.Name):
+            return f'{t.id} == 0', True
+        return U.src(t).replace('(', '').replace(')', '').strip(), False
+
+    def tr(node, st, label):
+        computed, stored, exits_ = st
+        a = node.ast
+        eff = C.simple_effect_node(node)
+        if node.kind == 'stmt' and eff is not None:
+            if any(U.call_attr(c) == 'nucleationBarrier' for c in U.calls(eff)):
+                computed = True
+            if isinstance(a, ast.Assign):
+                for t in U.flat_targets(a):
+                    c = U.chain(t)
+                    if c and c[:2] in (('Y', 'Rcrit'), ('Y', 'Gcrit')) and not U.is_const(a.value):
+                        stored = stored | {c[1]}
+        if node.kind == 'test' and label in (True, False) and computed:
+            t = a.test if hasattr(a, 'test') else a
+            txt, fl = norm(t)
+            exits_ = exits_ | {(txt, (not label) if fl else label)}
+        return (computed, stored, exits_)
+    at, exits = C.collect(g, (False, frozenset(), frozenset()), tr)
+    bad = []
+    npaths = 0
+    for lab, sts in exits.items():
+        for computed, stored, conds in sts:
+            npaths += 1
+            if not computed or {'Rcrit', 'Gcrit'} <= stored:
+                continue
+            if any(lbl is True and txt in UNRECORDED_EXITS for txt, lbl in conds):
+                continue
+            taken = [f'{txt} is {lbl}' for txt, lbl in sorted(conds, key=str)]
+            bad.append((lab, taken))
+    ctx.analysed['paths'] += npaths
+    ctx.check(not bad, 'R12.7', K.BASE, q, loop, f'on all {npaths} path classes of the phase loop a computed nucleation barrier is recorded (Y.Rcrit, Y.Gcrit), except through the listed exit {sorted(UNRECORDED_EXITS)}',
+              (f'a path leaves the iteration by "{bad[0][0]}" after the barrier was computed without recording Rcrit/Gcrit (tests taken: {"; ".join(bad[0][1][-3:])}): the record keeps the zero written at the top '
+               'of the iteration although the driving force is positive, so the recorded critical radius no longer follows from the recorded driving force') if bad else '',
+              construct='_calcNucleationRate: barrier recorded on every path')
+
+
 def check(repo, ctx, index, purity):
     ctx.explanation = EXPLANATION
     ctx.assumptions += ['the shape factor f is treated as a constant in the identity (size-dependent aspect ratios are numeric)', 'all clauses comparing two equilibrium calculations are not decided']
     r121_r122(repo, ctx)
     r123(repo, ctx)
     r124(repo, ctx)
+    r127(repo, ctx)
     sub = type(ctx)(ctx.prop, ctx.repo, ctx.tier, ctx.seed)
     C09.r94(repo, sub)
     for fnd in sub.findings:
